@@ -11,7 +11,7 @@ F = Fraction
 
 
 def base(**kw):
-    r = dict(kind="dt", defulps=0, positive=1, linear=0, local=0, exact=0, dt=[1, 1], cfl=[1, 1], h=[1, 1], u=[0, 1], c=[1, 1], model="")
+    r = dict(kind="dt", defulps=0, positive=1, linear=0, local=0, exact=0, cells=0, dt=[1, 1], cfl=[1, 1], h=[1, 1], u=[0, 1], c=[1, 1], model="")
     r.update(kw)
     return r
 
@@ -156,6 +156,44 @@ def records(rnd, tier):
     return recs
 
 
+def system_cells_records():
+    """C18 (ii) for SYSTEMS and for the implicit integrators too: a two-equation fake system with rhs == 1 and per-cell steps
+    dt_i that differ from cell to cell; after N iterations every unknown of cell i has advanced by N min(dt) (one global step)
+    or by N dt_i (dtlocal directive) -- whichever equation it belongs to"""
+    from . import driver_obs as D
+    recs = []
+    spread = np.array([2.0, 1.0, 4.0, 1.5])
+
+    class Two(D.FakeModel):
+        def __init__(self):
+            D.FakeModel.__init__(self, 0)
+            self.neq, self.shape = 2, [1, 1]
+
+    class Disc2(D.RecDisc):
+        def rhs(self, f):
+            return [np.ones(self.nelem) for _ in f.data]
+    for cn in ("explicit", "rk2_heun", "rk3ssp", "lsrk25bb", "implicit", "cranknicolson", "gear"):
+        for dtlocal in (False, True):
+            try:
+                mesh, model = D.FakeMesh(4), Two()
+                disc = Disc2(4, "c4", rec=False, dtlocal_spread=True, rhs_mode="one")
+                disc.model, disc.mesh = model, mesh
+                solver = getattr(fd.tnum, cn)(mesh, disc)
+                f0 = fd.field.fdata(model, mesh, [np.array([1.0, 0.75, -0.5, 1.25]), np.array([0.25, -1.0, 2.0, 0.5])])
+                nit, cfl = 3, 0.5
+                res = solver.solve(f0, cfl, stop={"maxit": nit}, **({"directives": {"dtlocal": True}} if dtlocal else {}))[-1]
+                want = nit * cfl * 0.25 * (spread if dtlocal else np.ones(4))
+                bad = 0
+                for q in range(2):
+                    inc = np.asarray(res.data[q], dtype=float) - np.asarray(f0.data[q], dtype=float)
+                    tol = 0.0 if cn in ("explicit", "rk2_heun") else 1e-9       # (the others add fractions of dt / solve a system)
+                    bad += int(np.sum(np.abs(inc - want) > tol * np.abs(want)))
+                recs.append(base(model="system2", cells=bad, cls=cn, dtlocal=dtlocal))
+            except Exception as ex_:
+                recs.append(dict(kind="raised", what="%s: %s" % (type(ex_).__name__, str(ex_)[:100]), model="system2"))
+    return recs
+
+
 def driver_records(tier):
     """C18 (ii): the driver advances every cell by min(dt) (global) or by its own dt (dtlocal): rhs == 1 makes the data
     increments equal to the step sizes; judged by Judge_Driver on the C07 observation record (clause C18_cells)"""
@@ -184,7 +222,7 @@ def sig_of(r):
 
 def run(tier):
     rnd = random.Random(core.seed())
-    recs = records(rnd, tier)
+    recs = records(rnd, tier) + system_cells_records()
     drv = driver_records(tier)
     return run_check(
         "C18", tier,
